@@ -621,6 +621,15 @@ func c03Gen(r *Rng, tier string, n int) []Case {
 			addFrag(t, "generated", true)
 		}
 	}
+	for _, kv := range [][2]string{{"a\"b'c", "x\"y'z"}, {"it's", "say \"hi\" it's"}, {"a#b", "c#d"}, {"k", "a\\b\"c"}, {"new\nline", "two\nlines\"q"}, {"a.b", "x: y"}, {"$v", "${x}"}, {"null", "null"}, {"Shape", "Label"}} {
+		for _, nested := range []bool{false, true} {
+			pc := c03ProgCase(kv[0], kv[1], nested)
+			if !seen[pc.Key] {
+				seen[pc.Key] = true
+				out = append(out, pc)
+			}
+		}
+	}
 	for i := 0; i < budget/12; i++ {
 		k, _ := c05RandStr(r)
 		v, _ := c05RandStr(r)
